@@ -152,8 +152,52 @@ def run_history(ctx, program, history, tag="random"):
         ctx.sample({"program": program, "history": history[:3], "hits": n_hits_total, "distinct_outcomes": len(outcomes)}, limit=2)
 
 
+def known_finding_reproducers(ctx):
+    """Two recorded findings that need user callables the generators never produce (a function that raises on
+    some inputs; a body that does not consume a lazy argument).  Each is attributed to its finding only if the
+    neutralised variant (total function / fully consumed iterable) behaves transparently."""
+    from labrea import Iter, Option, cached, coalesce, dataset
+
+    def history(node, dicts):
+        out = []
+        for o in dicts:
+            warm = observe(node.evaluate, dict(o))
+            with labrea.cache.disabled():
+                unc = observe(node.evaluate, dict(o))
+            out.append((o, warm, unc))
+        return [(o, w, u) for o, w, u in out if not same_outcome(w, u)]
+
+    # (1) a coalesce member validates, its evaluation raises, a later member supplies the value
+    dicts = [{"A": 0, "B": 1}, {"A": 0, "B": 2}, {"A": 5, "B": 2}, {"A": 0, "B": 1}]
+    bad = history(cached(coalesce(Option("A") >> (lambda a: 10 // a), Option("B"))), dicts)
+    ok = history(cached(coalesce(Option("A") >> (lambda a: 10 // (a or 1)), Option("B"))), dicts)
+    ctx.evaluations += 16
+    if bad:
+        o, w, u = bad[0]
+        ctx.violation("warm-vs-uncached", f"coalesce(Option('A') >> partial function, Option('B')) under a cache: {o} gives {short(w)} warm, {short(u)} uncached",
+                      {"mechanism": "coalesce-member-validates-but-raises" if not ok else None, "options": o})
+    # (2) a lazy Iter argument that the body does not consume completely
+    def make(consume_all):
+        @dataset
+        def d(it=Iter(Option("A"), Option("Z"))):
+            return list(it) if consume_all else next(iter(it))
+
+        return d
+
+    dicts = [{"A": 1}, {"A": 1, "Z": 2}, {"A": 3}]
+    bad = history(make(False), dicts)
+    ok = history(make(True), dicts)
+    ctx.evaluations += 12
+    if bad:
+        o, w, u = bad[0]
+        ctx.violation("warm-vs-uncached", f"dataset with a lazy Iter argument it does not consume: {o} gives {short(w)} with caching, {short(u)} without",
+                      {"mechanism": "unconsumed-lazy-argument-keyed-eagerly" if not ok else None, "options": o})
+
+
 def run(ctx):
     rng = ctx.rng
+    if ctx.shard == 0:
+        known_finding_reproducers(ctx)
     dicts = directed.dictionaries()
     for i, p in enumerate(directed.programs()):
         if i % ctx.shards != ctx.shard:
